@@ -18,7 +18,8 @@ def main():
         os.path.join(VERIF, "vlib", "not_applicable.json")) else {}
     for pid in ALL:
         path = os.path.join(VERIF, "checks", pid.lower() + ".py")
-        if not os.path.exists(path) or pid in na_reasons:
+        claimed = json.load(open(os.path.join(VERIF, "vlib", "claimed.json")))
+        if not os.path.exists(path) or pid in na_reasons or pid not in claimed:
             na.append({"property_id": pid, "reason": na_reasons.get(pid, NA_DEFAULT)})
             continue
         mod = importlib.import_module("checks." + pid.lower())
